@@ -152,6 +152,14 @@ CHECKS["C09"] = (
     "DESIGN.md section 4, C09",
 )
 
+CHECKS["C16"] = (
+    "E4-config-enumerator",
+    "exhaustive enumeration of class variants (every generated name x occupant kind x lazy/eager; colliding attribute-name sets; selections and switches) with class-__dict__ snapshots before decoration, after bootstrap and after first use of every helper",
+    "(A) for every class of the family, lazy and eager, and for each generated helper name of that class plus __init__/__repr__/__eq__, the variant defining that name in its own body as function / staticmethod / property / plain value (~7.6e3 variants quick); (B) 14 attribute-name sets whose singular/plural forms collide, in both declaration orders; (C) all init/repr/eq switch combinations, attrs / attrs_typed / attrs_skip / key / overflow selections and private nominations. Each class is built undecorated, snapshotted, decorated, bootstrapped and every helper is used once: every user-defined name keeps its identity, the set of added names equals refnames(class) (four scalar helpers per managed attribute, four element helpers per collection under its singular name or <attr>_item, three top-level helpers, the dunders incl. __spec_class_init__/repr/eq__), private attributes stay unmanaged, and each collection's with_<item> helper acts on that collection only.",
+    "refnames in props/c16.py calls inflect directly for the singular form; Attr/field declarations are replaced by their default by design; a user-defined __new__ may stay wrapped until the first instantiation of a lazy class.",
+    "DESIGN.md section 4, C16",
+)
+
 ENGINES = [
     {"name": "E1-explicit-state", "path": "mc/common.py, props/*.py (explore)", "serves_properties": [],
      "kind_free_text": "breadth-first explicit-state search over the real transition function; a state is the shortest operation history that reaches it, rebuilt by replay; canonical-form deduplication; lock-step reference model"},
